@@ -158,6 +158,14 @@ class Session:
             x = self.decodes[vs['j'] % len(self.decodes)]
             if len(x) == len(dvs):
                 return list(x)
+        if kind == 'full':
+            # a vector over ALL variables derived from u (the mapping op_fix uses too), of which the currently free
+            # positions are presented: under different fixed sets whose values come from the same u it denotes the same
+            # full vector
+            all_dvs = self.P.all_des_vars
+            free = [k for k in range(len(all_dvs)) if k not in self.fixed]
+            if len(free) == len(dvs):
+                return [self._u_value(all_dvs[k], vs['u'][k % len(vs['u'])]) for k in free]
         if kind == 'row':
             res = twin.get_all_discrete_x(with_fixed=True)
             if res is not None and res[0].shape[0] > 0:
@@ -265,18 +273,22 @@ class Session:
         if rp != rt:
             self.V('statistics-differ', f'{rp} vs fresh {rt} (fixed {self.fixed})')
 
+    @staticmethod
+    def _u_value(d, frac):
+        if d.is_discrete:
+            return min(d.n_opts - 1, int(frac * d.n_opts))
+        lo, hi = d.bounds
+        return lo + frac * (hi - lo)
+
     def _fix_target(self, i, frac):
         all_dvs = self.P.all_des_vars
         if not all_dvs:
             return None, None, None
         i = i % len(all_dvs)
         d = all_dvs[i]
-        if d.is_discrete:
-            v = min(d.n_opts - 1, int(frac * d.n_opts))
-        else:
-            lo, hi = d.bounds
-            v = lo + frac * (hi - lo)
-        return i, d, v
+        if isinstance(frac, list):  # the u of a 'full' vector: the value that vector has at this position
+            frac = frac[i % len(frac)]
+        return i, d, self._u_value(d, frac)
 
     def _is_conn_var(self, d):
         from adsg_core.graph.adsg_nodes import ConnectionChoiceNode
@@ -310,11 +322,13 @@ class Session:
         self.check_fix_bookkeeping()
 
     def op_free(self, op):
-        _, i = op
+        i = op[1]
         all_dvs = self.P.all_des_vars
         if not all_dvs:
             return
-        if self.fixed and op[1] % 3 != 2:
+        if len(op) > 2 and op[2] == 'exact':
+            i = i % len(all_dvs)
+        elif self.fixed and op[1] % 3 != 2:
             i = sorted(self.fixed)[i % len(self.fixed)]  # mostly free something that is fixed
         else:
             i = i % len(all_dvs)
@@ -569,6 +583,16 @@ def generate(prop, seed, tier, weights, n_ops=(4, 14), n_incompat_max=2, with_dv
             spec = gen_dsg.add_conn_choice(rng, spec, cid=f'X{k}', p_group=0.0, max_side=2)
     orng = s('ops')
     ops = gen_ops(orng, orng.randint(*n_ops), weights)
+    if 'fix' in weights and orng.random() < 0.3:
+        # directed motif: the same full vector is decoded (both create flags) under two different single fixes whose values
+        # are that vector's own entries - results must not depend on what was fixed (and decoded) before
+        u = [round(orng.random(), 4) for _ in range(8)]
+        a, b = orng.randrange(64), orng.randrange(64)
+        v = {'kind': 'full', 'u': u}
+        motif = [['fix', a, u, None], ['decode', v, False], ['decode', v, True], ['free', a, 'exact'],
+                 ['fix', b, u, None], ['decode', v, False], ['decode', v, True], ['free', b, 'exact']]
+        at = orng.randint(0, len(ops))
+        ops[at:at] = motif
     return {'property': prop, 'engine': ENGINE, 'seed': seed, 'spec': spec, 'ops': ops,
             'ids_seed': s.int_seed('ids'), 'twin_ids_seed': s.int_seed('ids-twin'), 'env_seed': s.int_seed('env'),
             'encoder': None}
@@ -604,7 +628,7 @@ def shrink_candidates(trace):
                 c = copy.deepcopy(t)
                 c['ops'][i][2] = True
                 yield c
-        if op[0] == 'fix' and (op[1] > 8 or op[2] != 0.0):
+        if op[0] == 'fix' and not isinstance(op[2], list) and (op[1] > 8 or op[2] != 0.0):
             c = copy.deepcopy(t)
             c['ops'][i][1] = op[1] % 8
             yield c
